@@ -16,7 +16,8 @@ RULE = (
     "2^31}. Oracle (metamorphic): the two flattened trees (child order, attrs, dims, dtypes, "
     "loaded values of every variable incl. pixels, coordinates, encodings) are identical except "
     "encoding.preferred_chunksizes of the image variable, which must be {rows: min(rpc, N), "
-    "columns: P}. Non-trivial: rpc1 != rpc2 and min(rpc1, rpc2) < N."
+    "columns: P}; each tree is then read again in pieces (rows 1.., every 3rd row, all rows) and "
+    "must return the pixels of its first full load. Non-trivial: rpc1 != rpc2 and min(rpc1, rpc2) < N."
 )
 ASSUMPTIONS = ["dask is absent: chunks=None; the advertised chunking is observed through .encoding"]
 BUDGET = {"quick": 120, "thorough": 1500}
@@ -95,6 +96,31 @@ def check_chunks(flat, spec, rpc, out, tag):
             out.append(harness.disc("preferred-chunks", key, want, leaf.encoding, rpc=rpc))
 
 
+def reload_checks(tree, flat, spec, tag, rpc):
+    """the same opened tree is read again in pieces and then completely: what is read must not
+    depend on the request size nor on what was read before (pixels of the first full load are the
+    reference)"""
+    import numpy as np
+
+    out = []
+    for gname in common.group_names(spec):
+        key = f"/imagery/{gname}#data"
+        leaf = flat.get(key)
+        if leaf is None or leaf.values is None:
+            continue
+        var = tree[f"imagery/{gname}"]["data"]
+        n = leaf.values.shape[0]
+        for what, sel in (("rows 1..", slice(1, None)), ("every 3rd row from 2", slice(2, None, 3)), ("all rows again", slice(None))):
+            got, err = harness.guard(lambda v=var, s=sel: np.asarray(v.isel(rows=s).values))
+            if err is not None:
+                out.append(harness.disc("exception", f"{key} {what}", "values", harness.exc_text(err), rpc=rpc, which=tag))
+                break
+            if not harness.array_bytes_equal(got, leaf.values[sel]):
+                out.append(harness.disc("rpc-dependence", f"{key} {what} (after earlier loads of the same tree)", "the pixels of the first full load", "different pixels", rpc=rpc, which=tag, lines=n))
+                break
+    return out
+
+
 def run_case(case):
     spec = common.spec_from(case)
     files, info = product.build_product(spec)
@@ -110,6 +136,7 @@ def run_case(case):
                 return [harness.disc("exception", f"flatten({tag})", "loadable tree", harness.exc_text(err))]
             check_chunks(flat, spec, case[tag], out, tag)
             flats.append(flat)
+            out.extend(reload_checks(tree, flat, spec, tag, case[tag]))
         out.extend(harness.diff_flat(flats[0], flats[1], ignore_encoding=is_image_data, kind="rpc-dependence"))
     return out
 
